@@ -13,6 +13,8 @@ mod c10;
 mod c11;
 mod c03;
 mod alpha;
+mod c02spec;
+mod c06;
 
 fn main() {
     let args: Vec<String> = std::env::args().collect();
@@ -33,6 +35,8 @@ fn main() {
         "c11" => c11::run(tier, seed, out, extra),
         "c03" => c03::run(tier, seed, out, extra),
         "alpha" => alpha::run(tier, seed, out, extra),
+        "c02spec" => c02spec::run(tier, seed, out, extra),
+        "c06" => c06::run(tier, seed, out, extra),
         other => {
             eprintln!("unknown check {other}");
             std::process::exit(2);
